@@ -61,6 +61,62 @@ theorem linSearch_sound (fuel : Nat) (b : Binding) (s : SSt) (cs : List CCall) (
 theorem linearizable_sound (s : SSt) (cs : List CCall) (h : linearizable s cs = true) :
     ∃ order, LinWitness [] s cs order := linSearch_sound _ _ _ _ h
 
+/-- **The search is complete**: a history of well-formed calls (`inv ≤ ret`) that has a linearization is accepted — so
+a `reject` of the driver means that NO sequential order of the recorded calls is compatible with their real-time order
+and returns the recorded results. -/
+theorem linSearch_complete (fuel : Nat) (b : Binding) (s : SSt) (cs order : List CCall)
+    (hw : LinWitness b s cs order) (hwf : ∀ c ∈ cs, c.inv ≤ c.ret) (hf : cs.length ≤ fuel) :
+    linSearch fuel b s cs = true := by
+  induction fuel generalizing b s cs order with
+  | zero =>
+    cases cs with
+    | nil => simp [linSearch]
+    | cons c r => simp at hf
+  | succ f ih =>
+    cases cs with
+    | nil => simp [linSearch]
+    | cons c0 r =>
+      obtain ⟨hperm, hrep, hpw⟩ := hw
+      cases order with
+      | nil => exact absurd hperm.length_eq (by simp)
+      | cons c rest =>
+        have hc : c ∈ c0 :: r := hperm.mem_iff.1 (List.mem_cons_self ..)
+        obtain ⟨i, hi⟩ := List.getElem?_of_mem hc
+        have hlt : i < (c0 :: r).length := by
+          rcases Nat.lt_or_ge i (c0 :: r).length with h | h
+          · exact h
+          · rw [List.getElem?_eq_none h] at hi; cases hi
+        rw [List.pairwise_cons] at hpw
+        cases hst : cstep b s c with
+        | none => simp [creplay, hst] at hrep
+        | some p =>
+          obtain ⟨b', s'⟩ := p
+          simp only [creplay, hst] at hrep
+          have hp := perm_cons_eraseIdx' hi
+          have hrest : rest.Perm ((c0 :: r).eraseIdx i) := (hperm.trans hp.symm).cons_inv
+          have hmin : minimalIn c (c0 :: r) = true := by
+            unfold minimalIn
+            rw [List.all_eq_true]
+            intro d hd
+            rcases List.mem_cons.1 (hperm.mem_iff.2 hd) with hd' | hd'
+            · subst hd'
+              have := hwf d hd
+              simp; omega
+            · have := hpw.1 d hd'
+              simpa using this
+          have hrec : linSearch f b' s' ((c0 :: r).eraseIdx i) = true := by
+            refine ih b' s' _ rest ⟨hrest, hrep, hpw.2⟩ ?_ ?_
+            · intro d hd
+              exact hwf d (List.mem_of_mem_eraseIdx hd)
+            · rw [List.length_eraseIdx, if_pos hlt]
+              simp at hf ⊢; omega
+          simp only [linSearch, List.any_eq_true]
+          exact ⟨i, List.mem_range.2 hlt, by simp [hi, hmin, hst, hrec]⟩
+
+theorem linearizable_complete (s : SSt) (cs order : List CCall) (hw : LinWitness [] s cs order)
+    (hwf : ∀ c ∈ cs, c.inv ≤ c.ret) : linearizable s cs = true :=
+  linSearch_complete _ _ _ _ _ hw hwf (Nat.le_refl _)
+
 /-! ## the wrapper protocol -/
 namespace TS
 variable {σ O R : Type}
@@ -540,6 +596,179 @@ theorem ts_not_stuck {B : Obj σ O R} {x0 : σ} {c : Cfg (Sh σ O R) (Th σ O R)
       | w => simp [hk] at hs
       | r => simp [hk, hw] at hs
   | wWait op inv => simp [tsStep, hw, hr] at hs
+  | wIn op inv => simp [inW] at ho
+  | wBody op inv x => simp [inW] at ho
+  | wOut op inv res lin => simp [inW] at ho
+  | rIn op inv => simp [inR] at ho
+  | rBody op inv x lin => simp [inR] at ho
+  | rOut op inv res lin => simp [inR] at ho
+
+/-! ### Go's writer preference
+
+`sync.RWMutex` does not admit a new reader while a writer has announced `Lock()`.  `tsSysStrict` is `tsSys` with that
+restriction; its runs are runs of `tsSys`, so every invariant above holds for it, and it cannot block itself either. -/
+
+/-- a goroutine about to start a reader call while some writer is pending -/
+def readerBlocked (B : Obj σ O R) (s : Sh σ O R) (t : Th σ O R) : Bool :=
+  match t.pc, t.todo with
+  | .idle, op :: _ =>
+    match B.kind op with
+    | .r => s.rw.pending != 0
+    | .w => false
+  | _, _ => false
+
+def tsStepStrict (B : Obj σ O R) (s : Sh σ O R) (t : Th σ O R) : List (Sh σ O R × Th σ O R) :=
+  if readerBlocked B s t then [] else tsStep B s t
+
+def tsSysStrict (B : Obj σ O R) : Sys (Sh σ O R) (Th σ O R) := { step := tsStepStrict B }
+
+theorem strict_step_sub {B : Obj σ O R} {a b : Cfg (Sh σ O R) (Th σ O R)} (h : Step (tsSysStrict B) a b) :
+    Step (tsSys B) a b := by
+  obtain ⟨s, pre, t, post, s', t', hmem⟩ := h
+  refine Step.mk s pre t post s' t' ?_
+  simp only [tsSysStrict, tsStepStrict] at hmem
+  split at hmem
+  · simp at hmem
+  · exact hmem
+
+theorem strict_reach_sub {B : Obj σ O R} {a b : Cfg (Sh σ O R) (Th σ O R)} (h : Reach (tsSysStrict B) a b) :
+    Reach (tsSys B) a b := by
+  induction h with
+  | refl => exact Reach.refl _
+  | tail _ hs ih => exact Reach.tail ih (strict_step_sub hs)
+
+def isWWait : Pc σ O R → Bool
+  | .wWait _ _ => true
+  | _ => false
+
+/-- `pending` counts the goroutines that have announced `Lock()` and not yet acquired -/
+def PInv (c : Cfg (Sh σ O R) (Th σ O R)) : Prop := c.1.rw.pending = c.2.countP (fun t => isWWait t.pc)
+
+theorem pinv_step {B : Obj σ O R} {a b : Cfg (Sh σ O R) (Th σ O R)} (hi : PInv a) (hs : Step (tsSys B) a b) : PInv b := by
+  obtain ⟨s, pre, t, post, s', t', hmem⟩ := hs
+  obtain ⟨pc, todo, rets⟩ := t
+  simp only [tsSys] at hmem
+  unfold PInv at hi ⊢
+  simp only [] at hi ⊢
+  rw [countP_mid] at hi ⊢
+  cases pc with
+  | idle =>
+    cases todo with
+    | nil => simp [tsStep] at hmem
+    | cons op rest =>
+      simp only [tsStep] at hmem
+      cases hk : B.kind op with
+      | w =>
+        simp only [hk, List.mem_singleton, Prod.mk.injEq] at hmem
+        obtain ⟨rfl, rfl⟩ := hmem
+        simp [tick, isWWait] at hi ⊢; omega
+      | r =>
+        simp only [hk] at hmem
+        split at hmem
+        · simp at hmem
+        · simp only [List.mem_singleton, Prod.mk.injEq] at hmem
+          obtain ⟨rfl, rfl⟩ := hmem
+          simp [tick, isWWait] at hi ⊢; omega
+  | wWait op inv =>
+    simp only [tsStep] at hmem
+    split at hmem
+    · simp only [List.mem_singleton, Prod.mk.injEq] at hmem
+      obtain ⟨rfl, rfl⟩ := hmem
+      simp [isWWait] at hi ⊢; omega
+    · simp at hmem
+  | wIn op inv =>
+    simp only [tsStep, List.mem_singleton, Prod.mk.injEq] at hmem
+    obtain ⟨rfl, rfl⟩ := hmem
+    simp [isWWait] at hi ⊢; omega
+  | wBody op inv x =>
+    simp only [tsStep, List.mem_singleton, Prod.mk.injEq] at hmem
+    obtain ⟨rfl, rfl⟩ := hmem
+    simp [tick, isWWait] at hi ⊢; omega
+  | wOut op inv res lin =>
+    simp only [tsStep, List.mem_singleton, Prod.mk.injEq] at hmem
+    obtain ⟨rfl, rfl⟩ := hmem
+    simp [tick, isWWait] at hi ⊢; omega
+  | rIn op inv =>
+    simp only [tsStep, List.mem_singleton, Prod.mk.injEq] at hmem
+    obtain ⟨rfl, rfl⟩ := hmem
+    simp [tick, isWWait] at hi ⊢; omega
+  | rBody op inv x lin =>
+    simp only [tsStep, List.mem_singleton, Prod.mk.injEq] at hmem
+    obtain ⟨rfl, rfl⟩ := hmem
+    simp [isWWait] at hi ⊢; omega
+  | rOut op inv res lin =>
+    simp only [tsStep, List.mem_singleton, Prod.mk.injEq] at hmem
+    obtain ⟨rfl, rfl⟩ := hmem
+    simp [tick, isWWait] at hi ⊢; omega
+
+theorem pinv_reach (B : Obj σ O R) (x0 : σ) (progs : List (List O)) {c : Cfg (Sh σ O R) (Th σ O R)}
+    (hr : Reach (tsSys B) (Sh.start x0, progs.map Th.start) c) : PInv c := by
+  refine inv_induction (S := tsSys B) PInv ?_ (fun _ _ h hs => pinv_step h hs) hr
+  have : ∀ l : List (List O), (l.map (Th.start (σ := σ) (R := R))).countP (fun t => isWWait t.pc) = 0 := by
+    intro l; induction l with
+    | nil => rfl
+    | cons a r ih => simp [Th.start, isWWait]
+  simp [PInv, Sh.start, this]
+
+/-- **With writer preference the wrapper cannot block itself either**: a reader is only refused while a writer is
+pending, and a pending writer gets the mutex as soon as nobody is inside. -/
+theorem ts_strict_not_stuck {B : Obj σ O R} {x0 : σ} {c : Cfg (Sh σ O R) (Th σ O R)} (hi : TInv B x0 c) (hp : PInv c) :
+    ¬ Deadlock (tsSysStrict B) finished c := by
+  rintro ⟨hstuck, t, ht, hnf⟩
+  -- a goroutine inside a section is never refused
+  have hinside : ∀ u ∈ c.2, inW u.pc = true ∨ inR u.pc = true → False := by
+    intro u hu h
+    have hs := hstuck u hu
+    simp only [tsSysStrict, tsStepStrict] at hs
+    have hb : readerBlocked B c.1 u = false := by
+      obtain ⟨pc, todo, rets⟩ := u
+      cases pc <;> simp [inW, inR] at h <;> simp [readerBlocked]
+    rw [hb] at hs
+    exact inside_steps B c.1 u h (by simpa using hs)
+  have hout : ∀ u ∈ c.2, inW u.pc = false ∧ inR u.pc = false := by
+    intro u hu
+    constructor
+    · cases h : inW u.pc with
+      | false => rfl
+      | true => exact (hinside u hu (Or.inl h)).elim
+    · cases h : inR u.pc with
+      | false => rfl
+      | true => exact (hinside u hu (Or.inr h)).elim
+  have hW0 : c.2.countP (fun t => inW t.pc) = 0 := List.countP_eq_zero.2 (fun u hu => by simp [(hout u hu).1])
+  have hR0 : c.2.countP (fun t => inR t.pc) = 0 := List.countP_eq_zero.2 (fun u hu => by simp [(hout u hu).2])
+  have hw : c.1.rw.writer = false := by
+    have := hi.exclW
+    rw [hW0] at this
+    cases h : c.1.rw.writer with
+    | false => rfl
+    | true => rw [h] at this; simp at this
+  have hr : c.1.rw.readers = 0 := by rw [hi.cntR, hR0]
+  -- nobody waits for the mutex: a waiting writer would get it
+  have hnowait : ∀ u ∈ c.2, isWWait u.pc = false := by
+    intro u hu
+    cases h : isWWait u.pc with
+    | false => rfl
+    | true =>
+      have hs := hstuck u hu
+      obtain ⟨pc, todo, rets⟩ := u
+      cases pc <;> simp [isWWait] at h
+      simp [tsSysStrict, tsStepStrict, readerBlocked, tsStep, hw, hr] at hs
+  have hp0 : c.1.rw.pending = 0 := by
+    rw [hp]; exact List.countP_eq_zero.2 (fun u hu => by simp [hnowait u hu])
+  have hs := hstuck t ht
+  have ho := hout _ ht
+  have hnw := hnowait _ ht
+  obtain ⟨pc, todo, rets⟩ := t
+  simp only [tsSysStrict, tsStepStrict] at hs
+  cases pc with
+  | idle =>
+    cases todo with
+    | nil => exact hnf (by simp [finished])
+    | cons op rest =>
+      cases hk : B.kind op with
+      | w => simp [readerBlocked, hk, tsStep] at hs
+      | r => simp [readerBlocked, hk, hp0, tsStep, hw] at hs
+  | wWait op inv => simp [isWWait] at hnw
   | wIn op inv => simp [inW] at ho
   | wBody op inv x => simp [inW] at ho
   | wOut op inv res lin => simp [inW] at ho
